@@ -1924,14 +1924,26 @@ def rule_importers(repo, col):
     for n in body_walk(f):
         if isinstance(n, ast.Call) and isinstance(n.func, ast.Attribute) \
                 and n.func.attr == 'append' and n.args and isinstance(
-                    n.args[0], ast.Subscript) and \
-                dotted(n.args[0].value) == 'parts':
+                    n.args[0], ast.Subscript) and isinstance(
+                    n.args[0].value, ast.Name) and any(
+                    isinstance(v, ast.Call) and isinstance(
+                        v.func, ast.Attribute) and v.func.attr == 'split'
+                    for v, _ in assigns.get(n.args[0].value.id, [])):
             apps[unparse(n.args[0].slice)] = dotted(n.func.value)
     if hdr and len(ctor) == 1:
-        def feeds(listname, target):
-            src = assigns.get(target, [(None, None)])[0][0]
-            return src is not None and listname in {
-                x.id for x in ast.walk(src) if isinstance(x, ast.Name)}
+        def feeds(listname, target, depth=0):
+            if target == listname:
+                return True
+            if depth > 5 or target is None:
+                return False
+            for src, _ in assigns.get(target, []):
+                if src is None:
+                    continue
+                for x in ast.walk(src):
+                    if isinstance(x, ast.Name) and feeds(listname, x.id,
+                                                         depth + 1):
+                        return True
+            return False
         ok = feeds(apps.get('0', '?'), dotted(
             ctor_arg(ctor[0], 1, 'observation_ids'))) and \
             feeds(apps.get('1', '?'), dotted(
